@@ -118,12 +118,48 @@ def generate(seed, tier):
     return cases
 
 
+def py_encode(e: dict) -> bytes:
+    """the archive of a writer case, written here from the member specs alone (classic tar arithmetic, hard-coded visor
+    positions): the bytes the real code gets never depend on the Lean writer or on extracted constants"""
+    hs = bytearray()
+    for m in e["members"]:
+        name, body = bytes.fromhex(m["name"]), bytes.fromhex(m["data"])
+        h = bytearray(512)
+        h[0:len(name[:100])] = name[:100]
+        h[100:108] = b"%07o\0" % m["mode"]
+        h[108:116] = b"%07o\0" % m["uid"]
+        h[116:124] = b"%07o\0" % m["gid"]
+        h[124:136] = b"%011o\0" % len(body)
+        h[136:148] = b"%011o\0" % m["mtime"]
+        h[156] = 0x35 if m["dir"] else 0x30
+        h[257:265] = b"ustar\x0000" if m["visor"] is None else b"visor  \0"
+        h[496:500] = (m["visor"] or 0).to_bytes(4, "little")
+        h[148:156] = b" " * 8
+        h[148:156] = b"%06o\0 " % sum(h)
+        hs += h
+        if m["visor"] in (None, 0):
+            hs += body + bytes(_pad512(len(body)))
+    hs += bytes(1024)
+    out = bytearray((i * 131 + e["seed"]) % 251 for i in range(e["size"]))
+    out[:len(hs)] = hs
+    out = out[:e["size"]]
+    for m in reversed(e["members"]):                 # the first member whose data area covers a byte decides
+        if m["visor"]:
+            body = bytes.fromhex(m["data"])
+            for k, b in enumerate(body):
+                if m["visor"] + k >= len(hs) and m["visor"] + k < len(out):
+                    out[m["visor"] + k] = b
+    return bytes(out)
+
+
 def build_enc(case):
-    """truth for a writer case, from the member specs alone (independent of the Lean `expected`)"""
+    """truth for a writer case, from the member specs alone (independent of the Lean `expected`); the bytes come from
+    `py_encode`; the Lean writer's bytes (`hex`) are only compared with them (`enc_same`)"""
     from sparse import Image
     r = case["recipe"]
     e = r["enc"]
-    data = bytes.fromhex(r["hex"])
+    data = py_encode(e)
+    lean_same = data == bytes.fromhex(r["hex"])
     truth, pos = [], 0
     for m in e["members"]:
         name = bytes.fromhex(m["name"])
@@ -144,7 +180,7 @@ def build_enc(case):
     im.put_hex(0, data)
     bl = Built({"a": im}, ["N%d" % len(ms)] + truth,
                {"branches": branches, "in_scope": True, "compare_model_out_of_scope": True, "nontrivial": nt, "plain": False,
-                "gz": False, "enc": True, "enc_wf": bool(r["wf"]), "enc_rt": bool(r["rt"])})
+                "gz": False, "enc": True, "enc_wf": bool(r["wf"]), "enc_rt": bool(r["rt"]), "enc_same": lean_same})
     bl.data = data
     return bl
 
@@ -258,6 +294,8 @@ def model_parse(case, built, out):
         # a case inside the hypotheses of vmtar_members_roundtrip: the evaluated instance of the theorem must hold
         if built.info["enc_wf"] and not built.info["enc_rt"]:
             ans = (ans or []) + ["ROUNDTRIP-INSTANCE-FAILED"]
+        if not built.info.get("enc_same", True):    # the Lean writer and the Python writer disagree: a broken tie, never a verdict
+            ans = (ans or []) + ["WRITER-MISMATCH"]
         return {"answers": ans, "wf": built.info["enc_wf"] and built.info["enc_rt"], "raw": [l[:200] for l in out]}
     return {"answers": None if unsupported else ans, "wf": (not unsupported) and built.info["in_scope"], "raw": [l[:200] for l in out]}
 
